@@ -8,6 +8,7 @@ import (
 	"time"
 
 	"github.com/mdzio/go-mqtt/message"
+	"github.com/mdzio/go-mqtt/topics"
 	"github.com/mdzio/go-mqtt/verifrt/vsched"
 	"verif/engine/explore"
 	"verif/harness/core"
@@ -135,6 +136,112 @@ func runConnack(cc connackCase) (viol string) {
 // and subscribes another filter.  The callbacks of the first connection's
 // requests are gone with that connection: a delivery on the old filter invokes
 // nobody, one on the new filter its callback exactly once.
+// runClientIDs: the client identifier is the application's choice.  Client.Connect
+// must succeed on CONNACK code 0 whatever it is - also when it equals the name of
+// a registered topics provider ("mem", registered by the package itself) or the
+// identifier of another Client of the same process that is connected (to another
+// server, say) - and the two clients' callbacks must stay apart.
+func runClientIDs(how string) (viol string) {
+	body := func() {
+		w := NewClientWorld()
+		cid := "cid"
+		if how == "client id mem" {
+			cid = "mem"
+		}
+		if !w.Connected(cid) {
+			return
+		}
+		w.Srv.Take()
+		subscribe := func(w *ClientWorld, filter string) *creq {
+			r, err := w.Issue("sub", []string{filter}, []byte{0}, "")
+			if err != nil {
+				vsched.Failf("Subscribe(%s) failed: %v", filter, err)
+				return nil
+			}
+			w.Settle()
+			ps := w.Srv.Take()
+			if len(ps) != 1 || ps[0].Type != refcodec.SUBSCRIBE {
+				vsched.Failf("harness: %s on the wire", Describe(ps))
+				return nil
+			}
+			w.ServerSend(&refcodec.Packet{Type: refcodec.SUBACK, ID: ps[0].ID, Codes: []byte{0}})
+			w.Settle()
+			return r
+		}
+		r1 := subscribe(w, "one/#")
+		if r1 == nil {
+			return
+		}
+		switch how {
+		case "client id mem":
+			w.ServerSend(&refcodec.Packet{Type: refcodec.PUBLISH, Topic: []byte("one/x"), Payload: []byte("p")})
+			w.Settle()
+			if d := w.TakeDeliveries(); len(d[r1.Idx]) != 1 {
+				vsched.Failf("client with the identifier %q: callback invoked %d times for one delivery", cid, len(d[r1.Idx]))
+				return
+			}
+			w.Cl.Disconnect()
+			w.Settle()
+			if alive := LibThreadsAlive(); len(alive) > 0 {
+				vsched.Failf("after Disconnect %d library goroutines are still alive: %s", len(alive), core.ParkedString(alive))
+				return
+			}
+			// the process-wide provider of that name is still there for a server
+			if _, err := topics.NewManager("mem"); err != nil {
+				vsched.Failf("after a client with the identifier %q has disconnected, the topics provider of that name is gone from the registry: %v", cid, err)
+			}
+		case "two clients, one id":
+			// a second Client object, same identifier, its own connection
+			w2 := &ClientWorld{Ln: w.Ln, Delivered: map[int][]string{}}
+			if !w2.Connected(cid) {
+				return
+			}
+			w2.Srv.Take()
+			r2 := subscribe(w2, "two/#")
+			if r2 == nil {
+				return
+			}
+			for _, t := range []string{"one/x", "two/x"} {
+				w.ServerSend(&refcodec.Packet{Type: refcodec.PUBLISH, Topic: []byte(t), Payload: []byte("to-1")})
+				w2.ServerSend(&refcodec.Packet{Type: refcodec.PUBLISH, Topic: []byte(t), Payload: []byte("to-2")})
+			}
+			w.Settle()
+			w2.Settle()
+			d1, d2 := w.TakeDeliveries(), w2.TakeDeliveries()
+			if len(d1[r1.Idx]) != 1 || d1[r1.Idx][0] != "one/x=to-1@0" {
+				vsched.Failf("two clients with one identifier: the first client's callback for one/# saw %v (expected its own delivery on one/x only)", d1[r1.Idx])
+				return
+			}
+			if len(d2[r2.Idx]) != 1 || d2[r2.Idx][0] != "two/x=to-2@0" {
+				vsched.Failf("two clients with one identifier: the second client's callback for two/# saw %v (expected its own delivery on two/x only)", d2[r2.Idx])
+				return
+			}
+			// the first one leaves; the second goes on
+			w.Cl.Disconnect()
+			w.Settle()
+			w2.ServerSend(&refcodec.Packet{Type: refcodec.PUBLISH, Topic: []byte("two/y"), Payload: []byte("later")})
+			w2.Settle()
+			if d := w2.TakeDeliveries(); len(d[r2.Idx]) != 1 {
+				vsched.Failf("two clients with one identifier: after the first one disconnected the second client's callback saw %v for one delivery on two/y", d[r2.Idx])
+				return
+			}
+			w2.Cl.Disconnect()
+			w2.Settle()
+			if alive := LibThreadsAlive(); len(alive) > 0 {
+				vsched.Failf("after both clients disconnected %d library goroutines are still alive: %s", len(alive), core.ParkedString(alive))
+			}
+		}
+	}
+	res := explore.RunDefault(body)
+	if res.Status == vsched.StCrash {
+		return "a library goroutine panicked: " + firstLine(res.Crash)
+	}
+	if len(res.Failures) > 0 {
+		return res.Failures[0]
+	}
+	return ""
+}
+
 func runReconnect(how string) (viol string) {
 	body := func() {
 		w := NewClientWorld()
@@ -647,6 +754,19 @@ func C20(c *core.Ctx) {
 			c.Rep.States++
 			if v != "" {
 				if c.Violate("C20 reconnect "+violClass(v), core.Replay{Scenario: "reconnect: " + how + ", Connect again with the same client id", Message: v}) {
+					return
+				}
+			}
+		}
+	}
+	if c.NShards <= 1 || c.Shard == 1%c.NShards {
+		for _, how := range []string{"client id mem", "two clients, one id"} {
+			v := runClientIDs(how)
+			c.Rep.Evaluations++
+			c.Rep.Executions++
+			c.Rep.States++
+			if v != "" {
+				if c.Violate("C20 client ids "+violClass(v), core.Replay{Scenario: "client identifiers: " + how, Message: v}) {
 					return
 				}
 			}
